@@ -43,7 +43,7 @@ def gen_pairs(ctx):
         b = numpy.ma.array(numpy.array([c[1] for c in cols], dtype=dts[1]), mask=[False] * len(cols))
         for cmd in ["ADividedByB", "AMinusB", "Sum", "Multiply", "Minimum", "Maximum", "Mean"]:
             cases.append(Case(cmd, {}, [a.copy(), b.copy()]))
-        for w in ([1, 1], [2, -1], [0.5, 0.25], [1, -1], [0, 0]):
+        for w in ([1, 1], [2, -1], [0.5, 0.25], [1, -1], [0, 0], [2.0, 1.0], [3.0, -1]):
             cases.append(Case("WeightedSum", {"Weights": list(w)}, [a.copy(), b.copy()]))
             cases.append(Case("WeightedMean", {"Weights": list(w)}, [a.copy(), b.copy()]))
     return cases
